@@ -340,6 +340,13 @@ pub fn c15(cx: &RunCtx) {
                 }
                 _ => {}
             }
+            // fractional operands with four decimal digits, 0.0001..4 (and the negatives with three): two copies of one
+            // iteration that start or stop differently (Lambert W, series switch-overs) part in the last bit for a few
+            // per cent of such arguments and for none with fewer digits
+            if let refmodel::vocab::Arity::Fixed(1) = f.arity() {
+                inputs.extend((1..=40000).map(|k| format!("{}({})", name, k as f64 / 10000.0)));
+                inputs.extend((1..=4000).map(|k| format!("{}(-{})", name, k as f64 / 1000.0)));
+            }
             use rayon::prelude::*;
             let parts: Vec<Stats> = inputs
                 .par_chunks(2048)
